@@ -497,4 +497,160 @@ theorem refRun_body {E : Cfg} (hs : E.s = 5 ∨ E.s = 8) {content : Bytes} {body
     simp only [refRun, hcl, ih, owedStream_cons, Stop.succ, hsn]
     simp
 
+
+/-! ## Reading the reference: where it stops and with what -/
+
+/-- `refWire` by the way the records end. -/
+theorem refWire_cases (E : Cfg) (w : Bytes) :
+    match (refRun E (decomp w).1).stop with
+    | .ranOut => refWire E w =
+        (refTail E (decomp w).2).pre (refRun E (decomp w).1).content (refRun E (decomp w).1).out
+    | .endOfStream k => refWire E w =
+        ⟨(refRun E (decomp w).1).content, (refRun E (decomp w).1).out, .eos,
+          serAll ((decomp w).1.drop k) ++ (decomp w).2⟩
+    | .abort k => refWire E w =
+        ⟨(refRun E (decomp w).1).content, (refRun E (decomp w).1).out, .err .abortRequest,
+          serAll ((decomp w).1.drop k) ++ (decomp w).2⟩ := by
+  unfold refWire glue
+  split <;> rfl
+
+/-- The stop index of `refRun` is the first record classified `endStream` / `abort`; all records
+before it are `data` or `noise`. -/
+theorem refRun_stop_spec (E : Cfg) (rs : List Rec) :
+    match (refRun E rs).stop with
+    | .ranOut => ∀ r ∈ rs, rclass E r = .data ∨ rclass E r = .noise
+    | .endOfStream k => (∃ r, rs[k]? = some r ∧ rclass E r = .endStream) ∧
+        ∀ r ∈ rs.take k, rclass E r = .data ∨ rclass E r = .noise
+    | .abort k => (∃ r, rs[k]? = some r ∧ rclass E r = .abort) ∧
+        ∀ r ∈ rs.take k, rclass E r = .data ∨ rclass E r = .noise := by
+  induction rs with
+  | nil => simp [refRun]
+  | cons r rs ih =>
+    simp only [refRun]
+    cases hcl : rclass E r with
+    | data =>
+      simp only
+      cases hst : (refRun E rs).stop with
+      | ranOut =>
+        rw [hst] at ih
+        simp only [Stop.succ, List.mem_cons]
+        rintro r' (rfl | hr')
+        · exact Or.inl hcl
+        · exact ih r' hr'
+      | endOfStream k =>
+        rw [hst] at ih
+        simp only [Stop.succ, List.getElem?_cons_succ, List.take_succ_cons, List.mem_cons]
+        refine ⟨ih.1, ?_⟩
+        rintro r' (rfl | hr')
+        · exact Or.inl hcl
+        · exact ih.2 r' hr'
+      | abort k =>
+        rw [hst] at ih
+        simp only [Stop.succ, List.getElem?_cons_succ, List.take_succ_cons, List.mem_cons]
+        refine ⟨ih.1, ?_⟩
+        rintro r' (rfl | hr')
+        · exact Or.inl hcl
+        · exact ih.2 r' hr'
+    | noise =>
+      simp only
+      cases hst : (refRun E rs).stop with
+      | ranOut =>
+        rw [hst] at ih
+        simp only [Stop.succ, List.mem_cons]
+        rintro r' (rfl | hr')
+        · exact Or.inr hcl
+        · exact ih r' hr'
+      | endOfStream k =>
+        rw [hst] at ih
+        simp only [Stop.succ, List.getElem?_cons_succ, List.take_succ_cons, List.mem_cons]
+        refine ⟨ih.1, ?_⟩
+        rintro r' (rfl | hr')
+        · exact Or.inr hcl
+        · exact ih.2 r' hr'
+      | abort k =>
+        rw [hst] at ih
+        simp only [Stop.succ, List.getElem?_cons_succ, List.take_succ_cons, List.mem_cons]
+        refine ⟨ih.1, ?_⟩
+        rintro r' (rfl | hr')
+        · exact Or.inr hcl
+        · exact ih.2 r' hr'
+    | endStream => simp [hcl]
+    | abort => simp [hcl]
+
+/-- The tail is fatal only through its header: a version byte ≠ 1, or a version-1 `AbortRequest`
+header carrying the request's id (a truncated `AbortRequest` record). -/
+theorem refTail_err {E : Cfg} {tail : Bytes} {e : PErr} (h : (refTail E tail).verdict = .err e) :
+    ∃ b0 b1 b2 b3 b4 b5 b6 b7 rest, tail = b0 :: b1 :: b2 :: b3 :: b4 :: b5 :: b6 :: b7 :: rest ∧
+      ((b0.toNat ≠ 1 ∧ e = .unknownVersion b0) ∨
+       (b0.toNat = 1 ∧ b1.toNat = RT.abortRequest ∧ be16 b2 b3 = E.id ∧ e = .abortRequest)) := by
+  unfold refTail at h
+  split at h
+  · rename_i b0 b1 b2 b3 b4 b5 b6 b7 rest
+    refine ⟨b0, b1, b2, b3, b4, b5, b6, b7, rest, rfl, ?_⟩
+    split at h
+    · rename_i v hc
+      simp only at h
+      subst h
+      unfold hclass at hc
+      repeat' (split at hc)
+      all_goals first
+        | (cases hc; done)
+        | (cases hc; rename_i h0; exact Or.inl ⟨h0, rfl⟩)
+        | (cases hc; rename_i h0 _ _ hab; exact Or.inr ⟨by omega, hab.1, hab.2, rfl⟩)
+    · split at h <;> cases h
+  · cases h
+
+
+theorem refTail_stop_unread {E : Cfg} {tail : Bytes} (h : (refTail E tail).verdict ≠ .more) :
+    (refTail E tail).unread = tail := by
+  by_cases hl : tail.length < 8
+  · exfalso
+    apply h
+    unfold refTail
+    split
+    · simp only [List.length_cons] at hl; omega
+    · rfl
+  · match tail, hl with
+    | b0 :: b1 :: b2 :: b3 :: b4 :: b5 :: b6 :: b7 :: rest, _ =>
+      simp only [refTail] at h ⊢
+      cases hc : hclass E b0 b1 b2 b3 b4 b5 with
+      | stop v => rfl
+      | pass st o =>
+        rw [hc] at h
+        simp only at h
+        split at h <;> exact absurd rfl h
+    | [], h | [_], h | [_, _], h | [_, _, _], h | [_, _, _, _], h | [_, _, _, _, _], h
+    | [_, _, _, _, _, _], h | [_, _, _, _, _, _, _], h => simp at h
+
+/-- **A stopping verdict in terms of records and tail**: either `refRun` stops in front of record
+`k` (`eos` for `endOfStream k`, `Err(AbortRequest)` for `abort k`) and the unread remainder starts
+with that record; or no record stops the parser and the tail's header does. -/
+theorem verdict_in_records (E : Cfg) (w : Bytes) (hne : (refWire E w).verdict ≠ .more) :
+    (∃ k, (((refRun E (decomp w).1).stop = .endOfStream k ∧ (refWire E w).verdict = .eos) ∨
+           ((refRun E (decomp w).1).stop = .abort k ∧ (refWire E w).verdict = .err .abortRequest)) ∧
+        (refWire E w).unread = serAll ((decomp w).1.drop k) ++ (decomp w).2) ∨
+    ((refRun E (decomp w).1).stop = .ranOut ∧
+      (refTail E (decomp w).2).verdict = (refWire E w).verdict ∧
+      (refWire E w).unread = (decomp w).2) := by
+  have hc := refWire_cases E w
+  cases hst : (refRun E (decomp w).1).stop with
+  | ranOut =>
+    rw [hst] at hc
+    simp only at hc
+    right
+    rw [hc] at hne ⊢
+    exact ⟨rfl, rfl, refTail_stop_unread hne⟩
+  | endOfStream k =>
+    rw [hst] at hc
+    simp only at hc
+    left
+    rw [hc]
+    exact ⟨k, Or.inl ⟨rfl, rfl⟩, rfl⟩
+  | abort k =>
+    rw [hst] at hc
+    simp only at hc
+    left
+    rw [hc]
+    exact ⟨k, Or.inr ⟨rfl, rfl⟩, rfl⟩
+
 end Fcgi.Str
